@@ -105,6 +105,40 @@ type Shared = Rc<RefCell<Holdings>>;
 
 thread_local! {
     static POOL_LEN: std::cell::Cell<usize> = const { std::cell::Cell::new(0) };
+    /// buffers the pool's allocator has handed out and not got back
+    static LIVE: RefCell<Vec<usize>> = const { RefCell::new(Vec::new()) };
+    static FREED_TWICE: std::cell::Cell<usize> = const { std::cell::Cell::new(0) };
+}
+
+/// The pool's memory comes from here: every buffer is freed exactly once, whoever owns it when the pool,
+/// the driver and the runtime go away (the pool, a handle, an operation still pending in the driver).
+struct Tracking;
+
+impl compio_driver::BufferAllocator for Tracking {
+    fn allocate(len: u32) -> std::ptr::NonNull<std::mem::MaybeUninit<u8>> {
+        let p = compio_driver::BoxAllocator::allocate(len);
+        LIVE.with(|l| l.borrow_mut().push(p.as_ptr() as usize));
+        p
+    }
+
+    unsafe fn deallocate(ptr: std::ptr::NonNull<std::mem::MaybeUninit<u8>>, len: u32) {
+        let known = LIVE.with(|l| {
+            let mut l = l.borrow_mut();
+            match l.iter().position(|a| *a == ptr.as_ptr() as usize) {
+                Some(i) => {
+                    l.swap_remove(i);
+                    true
+                }
+                None => false,
+            }
+        });
+        if !known {
+            // (not handed to the real allocator a second time)
+            FREED_TWICE.with(|f| f.set(f.get() + 1));
+            return;
+        }
+        unsafe { compio_driver::BoxAllocator::deallocate(ptr, len) }
+    }
 }
 
 /// Take a received buffer into custody: it must not overlap any other live handle.
@@ -188,7 +222,11 @@ fn bufpool() -> RunResult {
     let capacity = 1u32 << sim::range("ring.capacity.log2", 0, 5);
     POOL_LEN.with(|p| p.set(pool_len));
     let seed = sim::subseed("payload");
-    sim::log(|| format!("pool {pool_size} x {pool_len}, ring capacity {capacity}; {cfg:?}"));
+    // a managed read on a silent socket is still pending when the runtime is dropped
+    let leave_pending = sim::flip("leave.a.read.pending", 1, 3);
+    LIVE.with(|l| l.borrow_mut().clear());
+    FREED_TWICE.with(|f| f.set(0));
+    sim::log(|| format!("pool {pool_size} x {pool_len}, ring capacity {capacity}, a read left pending at the end: {leave_pending}; {cfg:?}"));
     for (i, r) in readers.iter().enumerate() {
         sim::log(|| format!("reader {i}: {r:?}"));
     }
@@ -201,11 +239,12 @@ fn bufpool() -> RunResult {
         let (errs, readers, dir) = (errs.clone(), readers.clone(), dir.clone());
         move || {
             let mut pb = ProactorBuilder::new();
-            pb.capacity(capacity).buffer_pool_size(std::num::NonZero::new(pool_size).unwrap()).buffer_pool_buffer_len(pool_len);
+            pb.capacity(capacity).buffer_pool_size(std::num::NonZero::new(pool_size).unwrap()).buffer_pool_buffer_len(pool_len).buffer_pool_allocator::<Tracking>();
             draw_driver(&mut pb);
             let rt = compio_runtime::Runtime::builder().with_proactor(pb).build().expect("runtime");
             let sh: Shared = Rc::default();
             let keep: Rc<RefCell<Vec<Box<dyn std::any::Any>>>> = Rc::default();
+            let silent: Rc<RefCell<Vec<Box<dyn std::any::Any>>>> = Rc::default();
             rt.block_on(async {
                 let mut tasks = Vec::new();
                 for (i, r) in readers.iter().cloned().enumerate() {
@@ -234,14 +273,33 @@ fn bufpool() -> RunResult {
                 if errs.first().is_ok() {
                     conservation(pool_size as usize, pool_len, &errs).await;
                 }
+                if leave_pending {
+                    if let Ok((a, b)) = std::os::unix::net::UnixStream::pair() {
+                        if let Ok(s) = compio_net::UnixStream::from_std(a) {
+                            compio_runtime::spawn(async move {
+                                let mut r = &s;
+                                let _ = r.read_managed(0).await;
+                            })
+                            .detach();
+                            // (the peer stays silent and open until the runtime is gone)
+                            silent.borrow_mut().push(Box::new(b));
+                            sleep(Duration::from_micros(20)).await;
+                        }
+                    }
+                }
                 keep.borrow_mut().clear();
             });
+            drop(rt);
+            silent.borrow_mut().clear();
         }
     });
     let _ = std::fs::remove_dir_all(&dir);
     let end = end?;
     errs.first()?;
     check!(end.open_rings == 0, "ring-leak", "{} rings still open", end.open_rings);
+    let (live, twice) = (LIVE.with(|l| l.borrow().len()), FREED_TWICE.with(|f| f.get()));
+    check!(twice == 0, "buffer-freed-twice", "{twice} pool buffer(s) were handed back to the pool's allocator a second time");
+    check!(live == 0, "buffer-leaked", "the runtime, its driver and pool and every buffer handle are gone; {live} of the pool's {pool_size} buffers were never handed back to the pool's allocator{}", if leave_pending { " (a managed read was pending when the runtime was dropped)" } else { "" });
     Ok(())
 }
 
@@ -509,6 +567,17 @@ async fn conservation(pool_size: usize, pool_len: usize, errs: &Errs) {
         Ok(Err(_)) => sim::probe("exhaustion-reported"),
         Ok(Ok(b)) => errs.push("pool-grew", format!("all {pool_size} buffers are held, yet another managed read delivered {:?} bytes", b.map(|b| b.len()))),
         Err(_) => errs.push("exhaustion-hangs", format!("all {pool_size} buffers are held and data is waiting: the next managed read neither failed nor completed within 20 ms")),
+    }
+    // the same for a multishot stream: it reports that it has no buffer, it does not go quiet
+    {
+        let mut r = &s;
+        let mut st = r.read_multi(0).boxed_local();
+        match compio_runtime::time::timeout(Duration::from_millis(20), st.next()).await {
+            Ok(Some(Err(_))) => sim::probe("multishot-exhaustion-reported"),
+            Ok(Some(Ok(b))) => errs.push("pool-grew", format!("all {pool_size} buffers are held, yet a multishot read delivered {} bytes", b.len())),
+            Ok(None) => errs.push("exhaustion-hangs", format!("all {pool_size} buffers are held and data is waiting: a multishot read ended without an item instead of reporting the exhausted pool")),
+            Err(_) => errs.push("exhaustion-hangs", format!("all {pool_size} buffers are held and data is waiting: a multishot read yielded nothing within 20 ms instead of reporting the exhausted pool")),
+        }
     }
     drop(got);
 }
